@@ -217,6 +217,61 @@ Proof.
 Qed.
 End WrapFold.
 
+(** ---- two coordinates, a step law that is even only under the JOINT sign change (a correlated Gaussian): wrapping the
+    first coordinate keeps the step symmetric, folding it does not. This is why the RWM runner wraps periodic coordinates
+    but rejects at reflective walls. ---- *)
+Section Wrap2.
+Variable phi2 : R -> R -> R.
+Hypothesis phi2_even : forall a b, phi2 (- a) (- b) = phi2 a b.
+Definition q_wrap2 (K : nat) (u1 u2 v1 v2 : R) : R := sym_sum K (fun k => phi2 (v1 - u1 + IZR k) (v2 - u2)).
+Theorem wrap2_symmetric K u1 u2 v1 v2 : q_wrap2 K u1 u2 v1 v2 = q_wrap2 K v1 v2 u1 u2.
+Proof.
+  unfold q_wrap2. apply sym_sum_ext.
+  - intro k. rewrite opp_IZR.
+    replace (u1 - v1 + IZR k) with (- (v1 - u1 + - IZR k)) by ring.
+    replace (u1 - v1 + - IZR k) with (- (v1 - u1 + IZR k)) by ring.
+    replace (u2 - v2) with (- (v2 - u2)) by ring.
+    rewrite !phi2_even. ring.
+  - replace (u1 - v1 + 0) with (- (v1 - u1 + 0)) by ring. replace (u2 - v2) with (- (v2 - u2)) by ring. now rewrite phi2_even.
+Qed.
+End Wrap2.
+
+Definition q_fold2 (phi2 : R -> R -> R) (K : nat) (u1 u2 v1 v2 : R) : R :=
+  sym_sum K (fun k => phi2 (v1 - u1 + 2 * IZR k) (v2 - u2) + phi2 (- v1 - u1 + 2 * IZR k) (v2 - u2)).
+
+(** a step density supported on positively correlated displacements shorter than one (even under the joint sign change) *)
+Definition phi_corr (a b : R) : R := if Rlt_dec 0 (a * b) then (if Rlt_dec (a * a) 1 then 1 else 0) else 0.
+Lemma phi_corr_even a b : phi_corr (- a) (- b) = phi_corr a b.
+Proof. unfold phi_corr. replace (- a * - b) with (a * b) by ring. replace (- a * - a) with (a * a) by ring. reflexivity. Qed.
+Lemma phi_corr_far a b : 1 <= a * a -> phi_corr a b = 0.
+Proof. intro H. unfold phi_corr. destruct (Rlt_dec 0 (a * b)); [|reflexivity]. destruct (Rlt_dec (a * a) 1); [lra|reflexivity]. Qed.
+Lemma phi_corr_anti a b : a * b <= 0 -> phi_corr a b = 0.
+Proof. intro H. unfold phi_corr. destruct (Rlt_dec 0 (a * b)); [lra|reflexivity]. Qed.
+
+Lemma sym_sum_zero_tail K f : (forall k, (1 <= k)%nat -> f (Z.of_nat k) = 0 /\ f (- Z.of_nat k)%Z = 0) -> sym_sum K f = f 0%Z.
+Proof.
+  intro H. induction K as [|K IH]; cbn [sym_sum]; [reflexivity|].
+  rewrite IH. destruct (H (S K)) as [A B]; [lia|]. rewrite A, B. ring.
+Qed.
+
+(** from (1/5, 0) the folded step never reaches (1/10, 1/2); from (1/10, 1/2) it reaches (1/5, 0) with density 1: whatever
+    the truncation K of the image sum *)
+Example fold2_not_symmetric K :
+  q_fold2 phi_corr K (1/5) 0 (1/10) (1/2) = 0 /\ q_fold2 phi_corr K (1/10) (1/2) (1/5) 0 = 1.
+Proof.
+  assert (Hk : forall k, (1 <= k)%nat -> 1 <= IZR (Z.of_nat k)).
+  { intros k Hk. apply IZR_le. lia. }
+  unfold q_fold2. split; rewrite sym_sum_zero_tail.
+  - rewrite !phi_corr_anti; [ring| |]; cbn; nra.
+  - intros k Hk1. specialize (Hk k Hk1). rewrite opp_IZR. set (z := IZR (Z.of_nat k)) in *.
+    split; rewrite !phi_corr_far; try ring; nra.
+  - rewrite (phi_corr_anti (1/5 - 1/10 + 2 * 0)); [|nra].
+    unfold phi_corr. destruct (Rlt_dec 0 ((- (1/5) - 1/10 + 2 * 0) * (0 - 1/2))) as [_|N]; [|exfalso; apply N; nra].
+    destruct (Rlt_dec ((- (1/5) - 1/10 + 2 * 0) * (- (1/5) - 1/10 + 2 * 0)) 1) as [_|N]; [ring|exfalso; apply N; nra].
+  - intros k Hk1. specialize (Hk k Hk1). rewrite opp_IZR. set (z := IZR (Z.of_nat k)) in *.
+    split; rewrite !phi_corr_far; try ring; nra.
+Qed.
+
 (** a proposal that is reversible w.r.t. a NON-periodic reference m (tpCN: it contracts towards the mode mean) does not
     stay m-reversible when wrapped: on the integers with m(x) = 2^-|x| and q(x,y) = m(y) [|x-y| <= 1], wrapped onto the
     residues mod 3, the pair (0, 2) has m(0) q~(0,2) = 1/2 but m(2) q~(2,0) = 1/32. This is why the tpCN runner rejects
